@@ -90,6 +90,10 @@ from xdsl.utils.mlir_lexer import MLIRTokenKind, StringLiteral
 from .base_parser import BaseParser  # noqa: TID251
 
 
+class _HexInt(int):
+    """An integer literal that was written in hexadecimal."""
+
+
 @dataclass
 class AttrParser(BaseParser):
     """
@@ -1200,8 +1204,14 @@ class AttrParser(BaseParser):
         ) -> tuple[float, float] | tuple[int, int]:
             assert isinstance(self.value, tuple)
 
-            if isinstance(type.element_type, AnyFloat):
-                return (float(self.value[0]), float(self.value[1]))
+            if isinstance(elt := type.element_type, AnyFloat):
+                real, imag = (
+                    next(elt.iter_unpack(v.to_bytes(elt.compile_time_size, "little")))
+                    if isinstance(v, _HexInt)
+                    else float(v)
+                    for v in self.value
+                )
+                return (real, imag)
 
             match type.element_type:
                 case IntegerType():
@@ -1283,12 +1293,17 @@ class AttrParser(BaseParser):
         token = self._consume_token(MLIRTokenKind.L_PAREN)
         start = token.span.start
         input = token.span.input
-        real, _ = self._parse_bool_int_or_float()
+        real, real_span = self._parse_bool_int_or_float()
         self.parse_punctuation(",")
-        imag, _ = self._parse_bool_int_or_float()
+        imag, imag_span = self._parse_bool_int_or_float()
+        # As in MLIR, a hexadecimal integer literal is the bit pattern of a float
+        if real_span.text[:2] in ("0x", "0X"):
+            real = _HexInt(real)
+        if imag_span.text[:2] in ("0x", "0X"):
+            imag = _HexInt(imag)
         real_ty = type(real)
         imag_ty = type(imag)
-        if real_ty != imag_ty:
+        if real_ty != imag_ty and _HexInt not in (real_ty, imag_ty):
             self.raise_error(
                 "Complex value must be either (float, float) or (int, int)"
             )
